@@ -14,7 +14,7 @@ from vlib import *
 PLAN = {
     'C01': dict(mix='g1,g2,g3,g4,g5', quick=18000, thorough=900000, extra=['--probe-mode', 'none'], gen=True),
     'C02': dict(mix='g4,g5,g5,g2', quick=40000, thorough=2000000, extra=['--probe-mode', 'none']),
-    'C03': dict(mix='g1,g2,g4,g8,g3', quick=40000, thorough=2000000, extra=['--probe-mode', 'none']),
+    'C03': dict(mix='g1,g2,g4,g8,g3', quick=40000, thorough=2000000, extra=['--probe-mode', 'none'], gen=True),
     'C04': dict(mix='g1,g2,g5,g6,g6,g8', quick=40000, thorough=2000000, extra=['--probe-mode', 'all']),
     'C05': dict(mix='g1,g2,g5,g6', quick=40000, thorough=2000000, extra=['--probe-mode', 'perturb']),
     'C07': dict(mix='g8,g8,g2,g3', quick=30000, thorough=1500000, extra=['--probe-mode', 'fen']),
